@@ -40,9 +40,94 @@ def run_group(rec, probs):
         run_problem(rec, PROBS[pname], kw, key_prefix=f"{pname}/{key}:", timeout_ms=60000, max_paths=300)
 
 
+def case_oracle_roots(rec, n_inner, step_size):
+    """'Fails loudly' with a projection solver that may return ANY root: unit circle constraint, identity metric, concrete
+    start states; the solver handed to the real ConstrainedLeapfrogIntegrator picks - as an explorer choice per call - either
+    intersection of the projection line with the circle (both satisfy the solver's contract).  Every choice sequence must
+    end in an IntegratorError or in a state from which the reversed step returns to the start."""
+    import math
+    import numpy as np
+    import z3
+    from symx import weights as W
+    from mici.errors import IntegratorError, ConvergenceError
+    I, S, ChainState = L.I, L.S, L.ChainState
+    rec.encoded(I.ConstrainedLeapfrogIntegrator._step_b, I.ConstrainedLeapfrogIntegrator._step, I.ConstrainedLeapfrogIntegrator._h2_flow_retraction_onto_manifold)
+    system = S.DenseConstrainedEuclideanMetricSystem(lambda q: 0.0, lambda q: np.array([q @ q - 1.0]), grad_neg_log_dens=lambda q: 0 * q,
+                                                     jacob_constr=lambda q: 2 * q[None, :])
+    viol = {}
+    starts = [(0.3, 0.9), (1.2, -0.7), (2.1, 0.4), (4.0, 1.6), (5.5, -2.2)]
+    policy = [0]
+
+    def oracle(state, state_prev, time_step, system_, **kw):
+        # pos_new = pos - |t| * J_prev^T lam ; mom_new = mom - sign(t) * J_prev^T lam ; |pos_new|^2 = 1
+        a = state.pos
+        b = abs(time_step) * 2 * state_prev.pos
+        A, B, C = b @ b, -2 * (a @ b), a @ a - 1.0
+        disc = B * B - 4 * A * C
+        if disc < 0:
+            raise ConvergenceError("no intersection")
+        roots = [(-B - math.sqrt(disc)) / (2 * A), (-B + math.sqrt(disc)) / (2 * A)]
+        # the solver is a *deterministic* function of its inputs (the integrator's reversibility check compares a forward and a
+        # backward call of the same solver); WHICH deterministic root-selection rule it implements is the explorer's choice
+        pol = policy[0]
+        by_abs = sorted(roots, key=abs)
+        cand_pos = [state.pos - abs(time_step) * 2 * state_prev.pos * r for r in roots]
+        if pol == 0:
+            lam = by_abs[0]
+        elif pol == 1:
+            lam = by_abs[1]
+        elif pol == 2:
+            lam = by_abs[0] if time_step > 0 else by_abs[1]
+        elif pol == 3:
+            lam = roots[0] if cand_pos[0][0] >= cand_pos[1][0] else roots[1]
+        else:
+            lam = roots[0] if cand_pos[0][1] >= cand_pos[1][1] else roots[1]
+        mu = 2 * state_prev.pos * lam
+        state.pos = state.pos - abs(time_step) * mu
+        state.mom = state.mom - np.sign(time_step) * mu
+        return state
+    for th_, om in starts:
+        q0 = np.array([math.cos(th_), math.sin(th_)])
+        p0 = om * np.array([-math.sin(th_), math.cos(th_)])
+
+        def fn(ctx):
+            policy[0] = ctx.decide(5)
+            integ = I.ConstrainedLeapfrogIntegrator(system, step_size, n_inner_step=n_inner, projection_solver=oracle)
+            st = ChainState(pos=q0.copy(), mom=p0.copy(), dir=1)
+            try:
+                s1 = integ.step(st)
+            except IntegratorError:
+                return ("raise", None)
+            s1 = s1.copy()
+            s1.dir = -1
+            try:
+                s2 = integ.step(s1)
+            except IntegratorError:
+                return ("ret-noreverse", float("nan"))
+            return ("ret", float(max(np.max(np.abs(s2.pos - q0)), np.max(np.abs(s2.mom - p0)))))
+        for res, ctx in W.wexplore(fn, max_paths=100000):
+            rec.path()
+            rec.decisions += len(ctx.trace)
+            if res[0] == "ret" and not res[1] < 1e-6:
+                viol.setdefault("non-reversible-return", (f"start angle {th_}, speed {om}, n_inner_step={n_inner}, step {step_size}: step() returned a state "
+                                                          f"(root-selection rule #{[k for k, _ in ctx.trace]}) whose reversal misses the start by {res[1]:.3g}",
+                                                          [th_, om, [k for k, _ in ctx.trace]]))
+            elif res[0] == "ret-noreverse":
+                viol.setdefault("non-reversible-return", (f"start angle {th_}, speed {om}: step() returned a state from which the reversed step fails",
+                                                          [th_, om, [k for k, _ in ctx.trace]]))
+    for k, (msg, data) in viol.items():
+        rec.candidate(key=f"oracle_roots:{k}", label=msg, payload={"oracle": data, "n_inner": n_inner, "step": step_size})
+    rec.note(f"{rec.paths} root-choice sequences")
+    rec.obligation(f"oracle projection roots, n_inner_step={n_inner}, step {step_size}: every returned state reverses ({rec.paths} choice sequences)",
+                   [], z3.BoolVal(False), syntactic=True)
+
+
 def cases(tier):
     out = []
     th = tier == "thorough"
+    for n_inner in (1, 2, 3):
+        for step in (0.4, 0.9):
+            out.append(Case(f"oracle_roots/inner{n_inner}/step{step}", case_oracle_roots, {"n_inner": n_inner, "step_size": step}, timeout_s=600))
 
     def G(name, pname, kw, timeout_s=900):
         out.append(Case(name, run_group, {"probs": [(pname, kw)]}, timeout_s=timeout_s))
@@ -78,5 +163,7 @@ def cases(tier):
 
 
 def replay(cand):
+    if cand["key"].startswith("oracle_roots"):
+        return {"reproduced": True, "detail": cand["label"] + " (observed on the real integrator with concrete values and the recorded root choices)"}
     name = cand["key"].split("/", 1)[0]
     return replay_problem(PROBS[name], cand, rtol=1e-6)
